@@ -150,11 +150,18 @@ func RenderStream(r *fw.Rand, specs []*Spec, o StreamOpts) ([]byte, []*Spec, Str
 		}
 		if written != "" {
 			sb.WriteString(spaces(3))
+			if !o.Plain && r.Chance(1, 20) {
+				// white space that is not ASCII at the start of the value
+				sb.WriteString([]string{"\u00a0", "\u3000", "\u2003", "\u0085", "\u00a0 "}[r.Intn(5)])
+			}
 			sb.WriteString(written)
 		}
 		trailing := ""
 		if !o.Plain && r.Chance(1, 8) {
-			trailing = []string{" ", "  ", " \t"}[r.Intn(3)]
+			// the value is trimmed of surrounding white space: ASCII and, as
+			// strings.TrimSpace does, the Unicode spaces (no-break space,
+			// ideographic space, em space, next line)
+			trailing = []string{" ", "  ", " \t", "\u00a0", "\u3000", "\u2003", "\u0085", "\u00a0\u00a0", " \u00a0"}[r.Intn(9)]
 			sb.WriteString(trailing)
 		}
 		if s.Tag == "INDI" || s.Tag == "FAM" {
